@@ -208,14 +208,14 @@ func main() {
 	var cfgs []hsx.Config
 	if c.Quick() {
 		cfgs = append(cfgs,
-			mkConfig(c, "2names/8versions/depth3", []string{"a.mtail", "b.mtail"}, []int{0, 1, 2, 3, 4, 5, 6, 7}, []string{"1", "x"}, 3),
-			mkConfig(c, "2names/4versions/depth4", []string{"a.mtail", "b.mtail"}, []int{0, 1, 3, 6}, []string{"2"}, 4),
+			mkConfig(c, "2names/8versions/depth4", []string{"a.mtail", "b.mtail"}, []int{0, 1, 2, 3, 4, 5, 6, 7}, []string{"1", "x"}, 4),
+			mkConfig(c, "3names/4versions/depth3", []string{"a.mtail", "b.mtail", "c.mtail"}, []int{0, 1, 3, 6}, []string{"2"}, 3),
 		)
 	} else {
 		cfgs = append(cfgs,
-			mkConfig(c, "2names/8versions/depth4", []string{"a.mtail", "b.mtail"}, []int{0, 1, 2, 3, 4, 5, 6, 7}, []string{"1", "x"}, 4),
+			mkConfig(c, "2names/8versions/depth5", []string{"a.mtail", "b.mtail"}, []int{0, 1, 2, 3, 4, 5, 6, 7}, []string{"1", "x"}, 5),
 			mkConfig(c, "3names/5versions/depth4", []string{"a.mtail", "b.mtail", "c.mtail"}, []int{0, 1, 3, 4, 6}, []string{"2"}, 4),
-			mkConfig(c, "2names/4versions/depth5", []string{"a.mtail", "b.mtail"}, []int{0, 1, 3, 6}, []string{"2"}, 5),
+			mkConfig(c, "2names/4versions/depth6", []string{"a.mtail", "b.mtail"}, []int{0, 1, 3, 6}, []string{"2"}, 6),
 		)
 	}
 	c.Assume = []string{
